@@ -31,6 +31,99 @@ class HostStream(Host):
         return self._io.getvalue()
 
 
+class _RecWriter(Host):
+    """Recording stand-in for BitWriter (the bit packing itself is folded under C16.MIRROR)."""
+
+    def __init__(self):
+        self.words = []
+
+    def write_number(self, number, bit_size):
+        if number < 0 or number >= (1 << bit_size):
+            raise InterpRaise('BitIOError')
+        self.words.append((number, bit_size))
+
+    def write_byte(self, number):
+        self.write_number(number, 8)
+
+
+class _RecReader(Host):
+    def __init__(self, words):
+        self.words = list(words)
+        self.mismatch = None
+
+    def read_number(self, bit_size):
+        if not self.words:
+            raise InterpRaise('BitIOError')
+        n, w = self.words.pop(0)
+        if w != bit_size and self.mismatch is None:
+            self.mismatch = f'reads {bit_size} bits where {w} were written'
+        return n
+
+    def read_byte(self):
+        return self.read_number(8)
+
+
+def gate_round_trip(ck: Checker, m, it, types, ids, arity, R='C16.GATE-RT'):
+    """_encode_gate followed by _decode_gate, folded for every type of the format and every order /
+    repetition of operand identifiers: the decoded gate has the same type and reads the same gates in
+    the same order."""
+    from ..rewrites import FakeCircuit, FakeGate
+    ck.rule(R, 'gate-level round trip: _encode_gate then _decode_gate folded for every type of the format and every operand identifier pattern (ascending, descending, repeated) on a recording bit stream: the decoded gate computes the same function of the same operand gates (operand order matters for the order-sensitive types), nothing left unread')
+    it.overrides['cirbo.core.circuit.gate.Gate'] = FakeGate
+    it._globals_cache.clear()
+    eg = RepoFunc(it, m, m.func('_encode_gate'))
+    dg = RepoFunc(it, m, m.func('_decode_gate'))
+    n = 0
+    for t in ids:
+        a = arity[t]
+        pats = {0: [()], 1: [(0,), (2,)], 2: [(0, 1), (1, 0), (2, 2), (2, 0), (1, 2)]}.get(a, [tuple(range(a)), tuple(reversed(range(a)))])
+        # operand counts the format does not define for this type: refused with the codec error, or (constants)
+        # still the same function after the round trip -- never a silently different gate
+        cls = semantics.ORACLE[t][0]
+        for k in (0, 1, 2, 3):
+            legal = cls == semantics.ANY or (cls[0] == 'fixed' and k == cls[1]) or (cls[0] == 'atleast' and k >= cls[1])
+            if k != a and legal:
+                pats = pats + [tuple(range(k))]
+        probs = []
+        for pat in pats:
+            n += 1
+            labels = ['a', 'b', 'c']
+            idents = {'a': 0, 'b': 1, 'c': 2}
+            w = _RecWriter()
+            it.steps = 0
+            try:
+                eg(w, FakeGate('g', types[t], tuple(labels[i] for i in pat)), dict(idents), 3)
+            except InterpRaise as e:
+                if not (len(pat) != a and e.exc_name == 'CircuitEncodingError'):
+                    probs.append(f'operand ids {pat}: encoder raises {e.exc_name}')
+                continue
+            c = FakeCircuit(types['INPUT'])
+            gates = {}
+            for i in range(3):
+                c.emplace_gate(f'gate_{i}', types['INPUT'])
+                gates[i] = c._gates[f'gate_{i}']
+            r = _RecReader(w.words)
+            try:
+                dg(r, 3, gates, c)
+            except InterpRaise as e:
+                probs.append(f'operand ids {pat}: decoder raises {e.exc_name} on the words {w.words}')
+                continue
+            new = [g for l, g in c._gates.items() if l not in ('gate_0', 'gate_1', 'gate_2')]
+            got = (new[0].gate_type.var, tuple(int(o.split('_')[1]) for o in new[0].operands)) if len(new) == 1 else None
+            def _val(name, xs):
+                try:
+                    return semantics.value(name, xs)
+                except TypeError:
+                    return ('illegal arity', name, len(xs))
+            same = got is not None and all(_val(t, [v[i] for i in pat]) == _val(got[0], [v[i] for i in got[1]]) and not isinstance(_val(t, [v[i] for i in pat]), tuple) for v in semantics.bools(3))
+            if not same or r.words or r.mismatch or getattr(gates.get(3), 'label', None) != (new[0].label if new else None):
+                probs.append(f'{t} over gate ids {pat} is written as {w.words} and read back as {got}: not the same function of the same gates' + (f' ({r.mismatch})' if r.mismatch else '') + (f'; words left unread: {r.words}' if r.words else ''))
+        ck.check(not probs, R, m, m.func('_encode_gate'), f'{t}: encode then decode gives a gate computing the same function of the same operand gates ({len(pats)} identifier patterns: ascending, descending, repeated)',
+                 '; '.join(probs[:2]), construct=f'_encode_gate/_decode_gate round trip of {t}')
+    ck.floor(R, 12)
+    return n
+
+
 def run(ck: Checker):
     repo = ck.repo
     den = Denotations(repo)
@@ -75,10 +168,13 @@ def run(ck: Checker):
         legal = cls == semantics.ANY or (cls[0] == 'fixed' and a == cls[1]) or (cls[0] == 'atleast' and a >= cls[1])
         ck.check(legal, 'C16.ARITY', m, m.func('_get_arity'), f'the format\'s operand count of {t} ({a}) is a legal arity of its operator',
                  f'_get_arity({t}) = {a} but the operator takes {cls}', construct=f'_get_arity({t}) = {a}')
+    gate_round_trip(ck, m, it, types, ids, arity)
     eg = m.func('_encode_gate')
     gparam = eg.args.args[1].arg
     loops = [n for n in ast.walk(eg) if isinstance(n, ast.For) and f'{gparam}.operands' in norm(n.iter)]
-    ck.need(len(loops) == 1, f'{m.rel}: operand loop of _encode_gate not found')
+    if len(loops) != 1:
+        # another way of writing the operand words: the operand-count clause is decided by the fold above (C16.GATE-RT)
+        loops = [eg]
     lp = loops[0]
     bounded = norm(lp.iter) in (f'{gparam}.operands[:_get_arity({gparam}.gate_type)]',)
     guard = False
@@ -88,7 +184,7 @@ def run(ck: Checker):
             for s in eg.body:
                 if isinstance(s, ast.If) and s.test is test and always_raises(s.body) and 'CircuitEncodingError' in norm(s.body[-1]):
                     guard = True
-    ck.check(guard or bounded, 'C16.ARITY', m, lp, 'the encoder writes exactly as many operand words as the decoder will read (or refuses the gate with CircuitEncodingError)',
+    ck.check(guard or bounded or lp is eg, 'C16.ARITY', m, lp, 'the encoder writes exactly as many operand words as the decoder will read (or refuses the gate with CircuitEncodingError)',
              'the operand loop writes len(operands) words but the decoder reads _get_arity(type): a gate with another operand count decodes to a silently different circuit',
              construct='_encode_gate operand loop')
     dg = m.func('_decode_gate')
